@@ -47,6 +47,13 @@ def sink_rules(ctx, prefix, modules=None, floor=None):
             if not known:
                 raise AnalysisError(f"{prefix}.W1", fi.site, f"cannot classify the path of write sink {s.key} "
                                                              f"(classes {sorted(s.classes)})")
+            if "MANGLED" in s.classes:
+                ctx.finding(f"{prefix}.W1", fi.site,
+                            f"write sink {s.kind} on `{norm(s.path_node)[:70]}`: the path is cut by text at a character "
+                            f"that is not the separator (split/rsplit/partition); when that character sits in a "
+                            f"directory component (`./out/x`, `run.1/plt00000`) the piece kept names another "
+                            f"directory — the file lands outside the requested output, possibly inside an input "
+                            f"(use os.path.splitext)", key=s.key + ":mangled", where=loc(fi, s.node), semantic=True)
             ctx.check(not inside, f"{prefix}.W1", fi.site,
                       f"sink {s.kind} on `{norm(s.path_node)[:50]}` is rooted at {sorted(known)} (never inside an input)",
                       f"write sink {s.kind} on `{norm(s.path_node)[:60]}` can be {sorted(inside)}: it creates/modifies/"
